@@ -37,6 +37,15 @@ def ops : List (String × Handler) := [
         render (Merkle.hash H leaves)
       | _, _, _, _, _ => badOp
     | _ => badOp),
+  ("merkle.generrs", fun
+    | [hn, n, seed, len, errs] => match hashByName hn, n.toNat?, seed.toNat?, len.toNat? with
+      | some H, some n, some seed, some len =>
+        let bad := (errs.splitOn ",").filterMap String.toNat?
+        let leaves : List (Except Nat (List UInt8)) := (List.range n).map fun (i : Nat) =>
+          if bad.contains i then .error i else .ok (genLeaf seed i (len + i % 3))
+        render (Merkle.hash H leaves)
+      | _, _, _, _ => badOp
+    | _ => badOp),
   ("merkle.empty", fun
     | [hn] => match hashByName hn with
       | some H => hexOfBytes (H [])
